@@ -1363,7 +1363,9 @@ def check_molfile_pairs(ctx, rid):
     coords = np.array([[0.5, 1.5, -2.5], [1.25, 0.0, 3.0], [2.0, 2.0, 2.0], [-1.0, -1.0, -1.0]])
     bonds = np.array([[0, 1, 1], [1, 2, 9], [2, 3, 11], [0, 3, 4]])
     charges = np.array([0.1, -0.2, 0.0, 0.3])
-    types_ = ["C.3", "N.am", "O.2", "H"]
+    # (force-field atom types that spell other elements: PDB-style `CA` on a carbon, GAFF `os` on an oxygen -- the
+    # element is what the atomic numbers say, not what the type column suggests)
+    types_ = ["CA", "N.am", "os", "H"]
     for short in ("sdf", "mol2"):
         do, lo = prog.format_op(short, "dump_one"), prog.format_op(short, "load_one")
         f0 = {n: None for n in iocls.fields}
